@@ -1,6 +1,7 @@
 package harness
 
 import (
+	"math/big"
 	"encoding/json"
 	"fmt"
 	"os/exec"
@@ -189,6 +190,20 @@ func (w *World) PermitOnlyUpdate(k *Key, svc string, blacklist string) (tx *pb.B
 		return nil, false
 	}
 	return w.BVM(k, AddrService, "UpdateService", pb.String(svc), pb.String(s.Name), pb.String(s.Intro), pb.String(blacklist), pb.String(s.Details), pb.String("reason")), true
+}
+
+// Eth builds an Ethereum-format transaction of the named deterministic sender with its next nonce
+// (nonceDelta shifts it: -1 = replay of the previous nonce, +1 = gap).
+func (w *World) Eth(sender string, nonceDelta int64, gas uint64, gasPrice, value *big.Int, to *types.Address, data []byte) pb.Transaction {
+	k := EthKey(sender)
+	a := EthAddr(k)
+	n := int64(w.Nonce(a)) + nonceDelta // Nonce() has taken the next one
+	if n < 0 {
+		n = 0
+	}
+	// the executor sets the account's nonce to (transaction nonce + 1) whatever the outcome
+	w.N[a.String()] = uint64(n) + 1
+	return EthTx(k, w.R.Cfg.Genesis.ChainID, uint64(n), gas, gasPrice, value, to, data, w.Stamp())
 }
 
 // FullID is the full service id on this hub.
